@@ -191,10 +191,15 @@ Qed.
 Lemma dec_pt_sound : forall N D pt, dec_pt N D = Some pt ->
   le_pow10 N D (pt - 1) = true /\ le_pow10 N D pt = false.
 Proof.
+  assert (K : forall N D p, dec_pt_ok N D p = true -> le_pow10 N D (p - 1) = true /\ le_pow10 N D p = false).
+  { intros N D p. unfold dec_pt_ok.
+    destruct (le_pow10 N D (p - 1)); destruct (le_pow10 N D p); cbn; intros H; try discriminate; auto. }
   intros N D pt. unfold dec_pt.
-  set (p := climb 8 N D _).
-  destruct (le_pow10 N D (p - 1)) eqn:E1; destruct (le_pow10 N D p) eqn:E2; cbn; intros H;
-    try discriminate. injection H as <-. auto.
+  set (p := climb 8 N D _). set (p2 := climb 800 N D _).
+  destruct (dec_pt_ok N D p) eqn:E1.
+  - intros H. injection H as <-. apply K. exact E1.
+  - destruct (dec_pt_ok N D p2) eqn:E2; [|discriminate].
+    intros H. injection H as <-. apply K. exact E2.
 Qed.
 
 (* ---- the radix validator ---- *)
